@@ -25,9 +25,9 @@ SPEC = {
                 "api.Metric.Expired / Discard are exercised through that, the phi arithmetic (prob.go) only at its two extremes",
                 "container/ring, sort.Stable (Go stdlib)",
                 "cadence: wall-clock measurement with three attempts; margins interval (ping) and TTL/2 (informers)"],
-    "level_text": "Theorems (Props/C09.v, 22, all closed) over the Gallina transcription of Store/Window/PeersetFilter/LatestMetrics and of the repaired Checker "
+    "level_text": "Theorems (Props/C09.v, 25, all closed) over the Gallina transcription of Store/Window/PeersetFilter/LatestMetrics and of the repaired Checker "
                   "(branch fix-S9): one metric per peer, the most recent, valid, unexpired, member, complete; no alert when fresh; from any state over any history without "
-                  "renewal at most one alert per (name, peer) and the stale window is gone; an observed expiry is reported; ping and informer schedules never lapse for "
+                  "renewal at most one alert per (name, peer) and the stale window is gone; an observed expiry is reported; a removed peer is forgotten under every name until it publishes again and its removal touches nobody else (removed_peer_forgotten / _not_reported / remove_peer_touches_only_that_peer); ping and informer schedules never lapse for "
                   "every interval / TTL / error pattern. The transcription is compared with the real packages on generated histories at every run, and the implementation's answers are judged by history-only monitors (codes 2, 10, 11, 13) that are proved sound (latest_monitor_sound, alerts_fresh/once/reported_monitor_sound: a code not produced implies the Prop-level clause over the whole history) and complete for the model (hist_model_passes_monitor: the model's own answers never trip a monitor; hist_agreeing_passes_monitor: nor does any history the model agrees with)",
     "level_note": "partial: the cadence theorems are about the schedule the code requests (timer latency and goroutine start-up are measured, not modelled); "
                   "the accrual verdict phi is an oracle; model tied to code by differential testing (generator-bounded)",
